@@ -142,6 +142,8 @@ func main() {
 		derr = driveStream(w)
 	case "life":
 		derr = driveLife(w)
+	case "clife":
+		derr = driveCLife(w)
 	default:
 		derr = fmt.Errorf("unknown family %q", sub)
 	}
